@@ -497,7 +497,34 @@ func sweepPools() func() {
 	}
 }
 
+type retainedPDU struct {
+	name, op, rendered string
+	p                  codec
+}
+
+var retainedPDUs []retainedPDU
+var retainedPDUsPerType map[string]int
+
+// retainDecoded keeps a PDU a dispatcher handed out, with its rendering at that moment
+func retainDecoded(name string, p codec, rendered, op string) {
+	if retainedPDUsPerType == nil {
+		retainedPDUsPerType = map[string]int{}
+	}
+	retainedPDUsPerType[name]++
+	if retainedPDUsPerType[name] > 60 {
+		return
+	}
+	retainedPDUs = append(retainedPDUs, retainedPDU{name, op, rendered, p})
+}
+
 func verifyRetained(res *Result, prop string) {
+	seenPDU := map[string]bool{}
+	for _, it := range retainedPDUs {
+		if now := renderRecord(it.name, snapshot(it.p)); now != it.rendered && !seenPDU[it.name] {
+			seenPDU[it.name] = true
+			res.Violate(prop+".decoded-pdu-changed-later:"+it.name, "a PDU returned by the dispatcher no longer holds what was decoded: a later decode wrote into it", []string{it.op, "(followed by the later decodes of this run)"})
+		}
+	}
 	reported := map[string]bool{}
 	report := func(it retainedImage, how string) {
 		if reported[it.name] {
@@ -563,6 +590,9 @@ func verifyRetained(res *Result, prop string) {
 		}
 	}
 	giveBack()
+	if len(retainedPDUs) > 0 {
+		res.Notes = append(res.Notes, fmt.Sprintf("%d PDUs handed out by the dispatchers looked at again at the end of the run", len(retainedPDUs)))
+	}
 	if len(retainedImages) > 0 {
 		res.Notes = append(res.Notes, fmt.Sprintf("%d encoded images of this run looked at again at its end; %d of its inputs encoded once more in one goroutine, each image checked after the three encodes that follow", len(retainedImages), n))
 	}
